@@ -150,12 +150,13 @@ def replacement(rng, kind, old, is_create):
             b = ' ' + b
         return ('/*+' if hint else '/*') + b + '*/', 'comment_ml'
     if kind == 'comment_sl':
-        hint = old.startswith('--+')
+        opener = '# ' if old.startswith('# ') else '--'
+        hint = old.startswith(opener + '+')
         end = '\r\n' if old.endswith('\r\n') else old[-1]
         b = soup_body(rng, ['\r', '\n'])
         if not hint and b.startswith('+'):
             b = ' ' + b
-        return ('--+' if hint else '--') + b + end, 'comment_sl'
+        return opener + ('+' if hint else '') + b + end, 'comment_sl'
     if kind == 'paren':
         blocks = (not is_create) and rng.random() < 0.25
         return '(' + paren_body(rng, blocks) + ')', \
